@@ -359,3 +359,148 @@ Print Assumptions C14_loop_cadence.
 Print Assumptions C14_loop_bound_is_23_min_30_s.
 Print Assumptions C14_loop_request_reaches_every_peer.
 Print Assumptions C14_loop_published_request_is_on_the_wire.
+
+(* ================================================================================================================================
+   Extension X10 — the NETWORK of loop nodes ([lnet], model/ReobsLoop.v) refines the guardian network of model/System.v on the
+   processor component, and C14's recovery at the network level (proofs/ClosureProofs1.v; definitions model/Closure.v).
+   [proj n]: the processor state of every loop node and the observations / VAAs on the wire (signed re-observation requests are not
+   part of System.net).  [sim n xs]: the System.net history the loop-network history xs amounts to from n - one System.net step per
+   processor input, in order; the delivery of the k-th wire item stays the DELIVERY of the same item ([NDeliver i (pidx pool k)]),
+   watcher answers / injections / set updates / clock / cleanup ticks are environment steps, adversarial items adversarial items. *)
+From WH Require Import model.System model.Closure proofs.SystemProofs proofs.ClosureProofs1 proofs.ClosureProofs2 proofs.ClosureProofs6
+     proofs.ClosureProofsEx0 proofs.ClosureProofsExA.
+
+(* one step: running the projected network over the System.net steps of a loop-network step ends in the projection of the loop
+   network's next state and puts out exactly the outputs the processor events of the step record *)
+Theorem C14_lnet_step_refines_system_net :
+  forall recover keccak gov_chain gov_addr decode_hb decodeq encq disable owns signs selfs watches n x,
+  System.nrun recover keccak gov_chain gov_addr owns signs (proj n)
+    (sim1 recover keccak gov_chain gov_addr decode_hb decodeq encq disable owns signs selfs watches n x) =
+  (proj (fst (lnstep recover keccak gov_chain gov_addr decode_hb decodeq encq disable owns signs selfs watches n x)),
+   map snd (proc_of (snd (lnstep recover keccak gov_chain gov_addr decode_hb decodeq encq disable owns signs selfs watches n x)))).
+Proof. exact sim_step. Qed.
+
+(* whole histories, from any state: same per-node processor states, same observations / VAAs on the wire, same processor outputs
+   (published VAAs included); the initial loop network projects to the initial System.net; well-formed sets stay well-formed *)
+Theorem C14_lnet_refines_system_net :
+  forall recover keccak gov_chain gov_addr decode_hb decodeq encq disable owns signs selfs watches xs n,
+  let sm := sim recover keccak gov_chain gov_addr decode_hb decodeq encq disable owns signs selfs watches n xs in
+  let lr := lnrun recover keccak gov_chain gov_addr decode_hb decodeq encq disable owns signs selfs watches n xs in
+  fst (System.nrun recover keccak gov_chain gov_addr owns signs (proj n) sm) = proj (fst lr) /\
+  concat (snd (System.nrun recover keccak gov_chain gov_addr owns signs (proj n) sm)) = louts (snd lr) /\
+  (Forall lnop_wf xs -> Forall nop_wf sm) /\
+  (forall N, proj (lninit N) = ninit N).
+Proof.
+  intros recover keccak gov_chain gov_addr decode_hb decodeq encq disable owns signs selfs watches xs n. cbv zeta.
+  split; [apply refinement|]. split; [apply refinement|]. split; [apply sim_wf|exact proj_init].
+Qed.
+
+(* a consequence: C01's network statement holds of the loop network - whatever any loop node stores after any history is a
+   quorum-valid VAA of a set that node was given *)
+Theorem C14_lnet_stores_hold_only_quorum_valid_vaas :
+  forall recover keccak gov_chain gov_addr decode_hb decodeq encq disable owns signs selfs watches N xs i lst, Forall lnop_wf xs ->
+  nth_error (x_nodes (fst (lnrun recover keccak gov_chain gov_addr decode_hb decodeq encq disable owns signs selfs watches (lninit N) xs))) i = Some lst ->
+  Forall (ProcSpec.stored_ok recover keccak
+            (net_learned i (sim recover keccak gov_chain gov_addr decode_hb decodeq encq disable owns signs selfs watches (lninit N) xs)))
+         (db (l_proc lst)).
+Proof. exact lnet_store. Qed.
+
+(* (d) RECOVERY AT THE NETWORK LEVEL = C14_loop_recovery o C02_network_liveness through the refinement.  N loop nodes, adversarial
+   network.  After ANY pre-history xs0, over ANY continuation xs in which node i gets no guardian-set change and no cleanup tick
+   ([lcalm]): G in force at node i, which knows nothing about m (it MISSED the message); S a set of >= quorum honest members of G
+   containing i (their signers consistent with recovery).  FAIRNESS PREMISES, explicit: (1) [lev_reobserved]: at some step node i's
+   OWN watcher takes the request at the head of its queue, its re-observation path answers [m], and the processor signs m; (2)
+   [lev_delivered] for every other j in S: at some step the network delivers to i - relayed by any peer but i itself - the
+   observation of m's digest that j put on the wire (C14_lnet_observer_item_is_on_the_wire: it is there once j observed m); any
+   order, duplication, interleaving with requests, adversarial items and other nodes' steps; (3) i's own signature has looped back.
+   Then node i's entry of m is submitted under G, and at some step of the window node i's processor broadcasts a
+   SignedVAAWithQuorum (by the refinement and C01: a quorum-valid VAA of G built from i's observation of m) *)
+Theorem C14_lnet_recovery :
+  forall recover keccak gov_chain gov_addr decode_hb decodeq encq disable owns signs selfs watches, (forall b, length (keccak b) = 32%nat) ->
+  forall N xs0 xs i G m (S : list nat), (i < N)%nat -> Forall lnop_wf xs0 -> Forall lnop_wf xs ->
+  let lnrun := lnrun recover keccak gov_chain gov_addr decode_hb decodeq encq disable owns signs selfs watches in
+  let stp := fun n x => fst (lnstep recover keccak gov_chain gov_addr decode_hb decodeq encq disable owns signs selfs watches n x) in
+  let n0 := fst (lnrun (lninit N) xs0) in
+  let n1 := fst (lnrun n0 xs) in
+  let h := dg keccak (vaa_of_message 0 m) in
+  (forall st0, nth_error (x_nodes n0) i = Some st0 -> cur (l_proc st0) = Some G /\ alookup h (agg (l_proc st0)) = None) -> ProcSpec.gs_wf G ->
+  (forall x, In x xs -> ltarget x = i -> lcalm x = true) ->
+  NoDup (map owns S) -> (forall j, In j S -> honest_member recover owns signs G j) ->
+  go_quorum (Z.of_nat (length (keys G))) <= Z.of_nat (length S) -> In i S ->
+  happens stp (lev_reobserved recover keccak gov_chain gov_addr owns signs watches i m) n0 xs ->
+  (forall j, In j S -> j <> i -> happens stp (lev_delivered owns signs selfs i j h) n0 xs) ->
+  (forall st, nth_error (x_nodes n1) i = Some st -> forall o, In o (loopq (l_proc st)) -> o_hash o <> h) ->
+  (exists st e, nth_error (x_nodes n1) i = Some st /\ alookup h (agg (l_proc st)) = Some e /\
+                our_vaa e <> None /\ gs_snap e = Some G /\ submitted e = true) /\
+  happens stp (lev_publishes recover keccak gov_chain gov_addr decode_hb decodeq encq disable owns signs selfs watches i) n0 xs.
+Proof. exact lnet_recovery. Qed.
+
+(* the item premise (2) speaks about: when an honest node signs a chain message handed over by its watcher's polling path, exactly
+   that observation is on the loop network's wire afterwards *)
+Theorem C14_lnet_observer_item_is_on_the_wire :
+  forall recover keccak gov_chain gov_addr decode_hb decodeq encq disable owns signs selfs watches n j m st,
+  nth_error (x_nodes n) j = Some st ->
+  existsb is_sendobs (snd (step recover keccak (signs j) (owns j) gov_chain gov_addr (l_proc st) (LocalMsg m))) = true ->
+  In (WObs {| o_addr := owns j; o_hash := dg keccak (vaa_of_message 0 m); o_sig := signs j (dg keccak (vaa_of_message 0 m)); o_tx := m_tx m |})
+     (x_pool (fst (lnstep recover keccak gov_chain gov_addr decode_hb decodeq encq disable owns signs selfs watches n (XLocal j (LEnv (VMsg m)))))).
+Proof. exact observer_item_on_wire. Qed.
+
+(* non-vacuity: two loop nodes (toy oracles), set {0, 1} (quorum 2); node 1 observes the message by polling (its observation is item 0
+   on the wire), node 0 MISSED it; window at node 0: a request for the transaction is posted and pumped (forwarded to the chain-2
+   queue, published as a signed request), the watcher answers with the message and the processor signs, an adversarial item, node 1's
+   observation is delivered, the own signature loops back - every premise holds, and the conclusion computed: the entry is submitted
+   and a SignedVAAWithQuorum is on the wire that was not there before *)
+Example C14_lnet_recovery_premises_satisfiable :
+  let stp := fun n x => fst (qx_lnstep n x) in
+  let n0 := fst (qx_lnrun (lninit 2) qx_pre) in
+  let n1 := fst (qx_lnrun n0 qx_win) in
+  let h := dg qx_keccak (vaa_of_message 0 qx_msg) in
+  Forall lnop_wf qx_pre /\ Forall lnop_wf qx_win /\
+  (forall st0, nth_error (x_nodes n0) 0 = Some st0 -> cur (l_proc st0) = Some qx_G /\ alookup h (agg (l_proc st0)) = None) /\ ProcSpec.gs_wf qx_G /\
+  (forall x, In x qx_win -> ltarget x = 0%nat -> lcalm x = true) /\
+  NoDup (map qx_owns [0; 1]%nat) /\ (forall j, In j [0; 1]%nat -> honest_member qx_recover qx_owns qx_signs qx_G j) /\
+  go_quorum (Z.of_nat (length (keys qx_G))) <= Z.of_nat (length [0; 1]%nat) /\
+  happens stp (lev_reobserved qx_recover qx_keccak 1 (repeat x00 32) qx_owns qx_signs qx_watches 0 qx_msg) n0 qx_win /\
+  happens stp (lev_delivered qx_owns qx_signs qx_selfs 0 1 h) n0 qx_win /\
+  (forall st, nth_error (x_nodes n1) 0 = Some st -> forall o, In o (loopq (l_proc st)) -> o_hash o <> h) /\
+  (exists st e, nth_error (x_nodes n1) 0 = Some st /\ alookup h (agg (l_proc st)) = Some e /\ submitted e = true) /\
+  existsb (fun w => match w with WVaa _ => true | _ => false end) (x_pool n1) = true /\
+  existsb (fun w => match w with WVaa _ => true | _ => false end) (x_pool n0) = false.
+Proof. exact ex_lnet_recovery. Qed.
+
+(* (c) SAFETY THROUGH THE LOOP, EVM chains: the EVM watcher's re-observation path (model/EvmLog.v [xreobserve]: by_transaction.go over
+   raw receipts + watcher.go's depth test) as the oracle of the chains node.go wires to an EVM watcher ([evm_chains] = 2, 4), with
+   C10's re-observation theorem as its contract ([evm_confirmed], props/C10.v C10_evm_reobservation_oracle_contract).  Over every
+   history of the composed node from its initial state - whatever requests arrive, from whatever peer, for whatever transaction, at
+   whatever rate - every chain message the processor handles (hence every one it signs: C14_loop_signing_sources) was handed over by
+   a watcher's polling path, or is in the answer of watcher c to a request naming chain c; and for an EVM chain it is the content of
+   ONE core-contract LogMessagePublished log of a STATUS-1 receipt the node served, deep enough w.r.t. the head the watcher read
+   before it asked for the receipt *)
+Theorem C14_loop_evm_chains_are_the_wired_ones : evm_chains = [2; 4] /\ incl evm_chains watched_chains /\ is_evm_chain Extracted.alph_chain_id = false.
+Proof. split; [exact evm_chains_are|split; [exact evm_chains_watched|exact evm_not_alph]]. Qed.
+
+Theorem C14_loop_signs_only_confirmed_evm_messages :
+  forall recover keccak sign own gov_chain gov_addr decode_hb decodeq encq self disable ecfg enode other H u m outs,
+  let watch := evm_watch ecfg enode other in
+  In (u, EProc (LocalMsg m) outs) (snd (lrun recover keccak sign own gov_chain gov_addr decode_hb decodeq encq self disable watch linit H)) ->
+  (exists s, In (s, LEnv (VMsg m)) (lstates recover keccak sign own gov_chain gov_addr decode_hb decodeq encq self disable watch linit H)) \/
+  (exists s c r, In (s, LWatch c) (lstates recover keccak sign own gov_chain gov_addr decode_hb decodeq encq self disable watch linit H) /\
+     Reobserve.chain_of r = c /\
+     if is_evm_chain c then evm_confirmed (ecfg c) (enode c r (l_now s)) m else In m (other c r (l_now s))).
+Proof. exact loop_evm_signs_only_confirmed. Qed.
+
+(* computed: the EVM oracle inside the loop - a request for the transaction is forwarded to the chain-2 queue, the watcher's answer
+   (a status-1 receipt in block 1000, head 1255) is the message of the receipt's log, and the processor signs it *)
+Example C14_loop_evm_watcher_computed :
+  In cx_m (cx_watch 2 {| Reobserve.r_chain := 2; Reobserve.r_tx := cx_tx |} 1000) /\
+  existsb (fun e => match snd e with EWatch 2 _ [m] => true | _ => false end) (snd (cx_run linit cx_H)) = true /\
+  existsb (fun e => match snd e with EProc (LocalMsg m) outs => existsb is_sendobs outs | _ => false end) (snd (cx_run linit cx_H)) = true.
+Proof. exact ex_evm_loop. Qed.
+
+Print Assumptions C14_lnet_step_refines_system_net.
+Print Assumptions C14_lnet_refines_system_net.
+Print Assumptions C14_lnet_stores_hold_only_quorum_valid_vaas.
+Print Assumptions C14_lnet_recovery.
+Print Assumptions C14_lnet_observer_item_is_on_the_wire.
+Print Assumptions C14_loop_evm_chains_are_the_wired_ones.
+Print Assumptions C14_loop_signs_only_confirmed_evm_messages.
